@@ -7,7 +7,6 @@ import (
 	"errors"
 	"fmt"
 	"io"
-	"math"
 	"unicode/utf8"
 
 	"github.com/ohler55/ojg"
@@ -233,11 +232,12 @@ func (t *Tokenizer) tokenizeBuffer(buf []byte, last bool) {
 				if digitMap[b] != numDigit {
 					break
 				}
-				t.num.I = t.num.I*10 + uint64(b-'0')
-				if math.MaxInt64 < t.num.I {
+				if gen.BigLimit <= t.num.I {
 					t.num.FillBig()
+					t.num.AddDigit(b)
 					break
 				}
+				t.num.I = t.num.I*10 + uint64(b-'0')
 			}
 			if digitMap[b] == numDigit {
 				off++
@@ -333,7 +333,7 @@ func (t *Tokenizer) tokenizeBuffer(buf []byte, last bool) {
 				}
 				t.num.Frac = t.num.Frac*10 + uint64(b-'0')
 				t.num.Div *= 10.0
-				if math.MaxInt64 < t.num.Frac {
+				if gen.BigLimit <= t.num.Div {
 					t.num.FillBig()
 					break
 				}
